@@ -164,6 +164,13 @@ class CellRangeSet(_CellRangeReader):
 #########################
 # XlsObject
 
+def _coord_sort_key(coord):
+    # 'AB12' -> (2, 'AB', 12): orders cells by column (A, ..., Z, AA, AB, ...),
+    # then by row. (As plain strings 'AA2' < 'Z2' and 'A10' < 'A9'.)
+    col = coord.rstrip('0123456789')
+    return len(col), col, int(coord[len(col):])
+
+
 class XlsObject:
     """Base class for objects to be read from excel worksheet.
 
@@ -296,7 +303,7 @@ class XlsObject:
         assert isinstance(origins, dict)
         if range_key is None:
             # return description of all the source cells
-            cells_coords = sorted(origins.values())
+            cells_coords = sorted(origins.values(), key=_coord_sort_key)
             if len(cells_coords) == 0:
                 cells_range_descr = "<skipped column>"
             elif len(cells_coords) == 1:
